@@ -15,6 +15,9 @@ one() { name=$1; patch=$2; prop=$3
 one S20-lazy-registration seeded/S20-C01-lazy-registration/patch.diff C01
 one S31-pop-try-lock seeded/S31-C01-pop-try-lock/patch.diff C01
 one S32-is-unique seeded/S32-C03-is-unique-check-then-act/patch.diff C03
+one S47-notified-flag seeded/S47-C01-notified-flag-reset-before-register/patch.diff C01
+one S48-idle-group-peek seeded/S48-C01-idle-group-peek-before-register/patch.diff C01
+one S50-push-check-then-act seeded/S50-C01-push-check-then-act/patch.diff C01
 one e2a-notify-before-enqueue mutants/e2a-notify-before-enqueue.diff C01
 one e2b-register-after-drain mutants/e2b-register-after-drain.diff C01
 one m03a-clone-without-inc mutants/m03a-clone-without-inc.diff C03
